@@ -8,7 +8,7 @@ try:
 except ImportError:  # pragma: no cover
     from monotonic import monotonic
 
-from .common import _Future, MAX_TIMEOUT, copy_future_exception
+from .common import _Future, MAX_TIMEOUT, copy_future_exception, try_set_result
 from .wrap import CanCustomizeBind
 from .helpers import executor_loop
 from .event import get_event, is_shutdown
@@ -466,7 +466,8 @@ def copy_future(f1, f2):
     if exception:
         copy_future_exception(f1, f2)
     else:
-        f2.set_result(result)
+        # f2 has been handed out to the user, who may have cancelled it meanwhile
+        try_set_result(f2, result)
 
 
 def eval_policy(job, logger):
